@@ -13,6 +13,7 @@ TRUSTED = [
     "text-size / lsp-types conversions (u32), String::is_char_boundary",
 ]
 RULE = ("all strings up to length N over {a, space, LF, CR, 2-/3-/4-byte char, FF, U+2028} (N=4 quick, 6 thorough) x all "
+        "char-boundary offsets x all positions; one character per UTF-8 lead byte 0xC2..0xF4 and the boundary code points of every length class in 7 short contexts; "
         "char-boundary offsets x all (line, col) with line <= numLines and col <= utf16len+2; plus random long mixed texts; "
         "non-trivial = contains a multi-byte char or a line terminator; every string is distinct by construction")
 FINISH = dict(level="proof", trusted_base=TRUSTED, rule=RULE)
@@ -68,11 +69,28 @@ def batches(ck):
                 cur = []
     if cur:
         yield "exhaustive", cur
+    # one character per UTF-8 lead byte (0xC2..0xF4) and the boundary code points of every length class
+    reps = []
+    for lead in range(0xC2, 0xF5):
+        if lead < 0xE0:
+            cp = (lead & 0x1F) << 6
+        elif lead < 0xF0:
+            cp = max((lead & 0x0F) << 12, 0x800)
+            if 0xD800 <= cp <= 0xDFFF:
+                cp = 0xE000
+        else:
+            cp = max((lead & 0x07) << 18, 0x10000)
+        reps.append(chr(cp))
+    reps += [chr(c) for c in (0x7F, 0x80, 0x7FF, 0x800, 0xFFFF, 0x10000, 0x3FFFF, 0x40000, 0x10FFFF, 0x85, 0x2029, 0x0B)]
+    lead_texts = []
+    for c in reps:
+        lead_texts += [c, "a" + c, c + "a", c + c, c + "\n" + c, "\r\n" + c + "b", c + "\r" + c + c]
+    yield "lead_bytes", lead_texts
     rng = ck.rng
     rnd = []
     for _ in range(300 if quick else 4000):
         ln = rng.choice([8, 20, 60, 200])
-        rnd.append("".join(rng.choice(ALPHABET + ["b", "x", "\n", "\r\n"]) for _ in range(ln)))
+        rnd.append("".join(rng.choice(ALPHABET + reps + ["b", "x", "\n", "\r\n"]) for _ in range(ln)))
     yield "random_long", rnd
 
 
